@@ -153,7 +153,7 @@ def expectedLoopStages : List String :=
    "ITER=self._do_iteration(data, loss_fns=loss_fns, regularizer_fns=regularizer_fns)",
    "SCALE=data['scaling_factor'].clone()",
    "RES=_compute_resolution(key=crop, reconstruction_size=data.get('reconstruction_size', None))",
-   "OUT=_process_output(ITER.output_image, SCALE, resolution=RES, complex_axis=self._complex_dim)",
+   "OUT=_process_output(ITER.output_image, scaling_factors=SCALE, resolution=RES, complex_axis=self._complex_dim)",
    "alloc volume_size=len(data_loader.batch_sampler.sampler.volume_indices[FILENAME])",
    "alloc curr_volume=torch.zeros(volume_size, *OUT.shape[1:], dtype=OUT.dtype)",
    "write curr_volume[slice_counter:slice_counter + OUT.shape[0]]=OUT.cpu()",
